@@ -33,9 +33,11 @@ package parser
 //@ extern unicode/utf16.EncodeRune github.com/dop251/goja/unistring.FromUtf16 fmt.Errorf
 
 // Decoding the escapes of a literal never reads outside the text, whatever the text is.
+// (length is the number of UTF-16 code units the caller counted while scanning the literal: never
+// more than its bytes.)
 //@ func parseStringLiteral safe
 //@   props C01
-//@   requires length >= 0
+//@   requires length >= 0 && length <= len(literal) [counted-units-fit-in-the-text]
 //@   assigns nothing
 //@   loop 1 vars str string, chars []uint16
 //@   loop 1 invariant cap(chars) == 0 || newarray(chars) [output-buffer-is-our-own]
